@@ -638,8 +638,13 @@ def _extract_coefficient_impl(expr: Expression, var: Variable) -> float:
                 return _extract_coefficient_impl(expr.left, var) * float(
                     expr.right.value
                 )
-            # For linear expressions, at least one side must be constant
-            # This fallback handles edge cases where constants are nested
+            # A constant-valued factor that is not a literal, as in (2 + 3) * x
+            factor = _constant_factor(expr.left)
+            if factor is not None:
+                return factor * _extract_coefficient_impl(expr.right, var)
+            factor = _constant_factor(expr.right)
+            if factor is not None:
+                return _extract_coefficient_impl(expr.left, var) * factor
             return 0.0
 
         if expr.op == "/":
@@ -697,6 +702,13 @@ def extract_constant_term(expr: Expression) -> float:
     return _extract_constant_impl(expr)
 
 
+def _constant_factor(expr: Expression) -> float | None:
+    """Value of a factor that is constant without being a literal, else None."""
+    if compute_degree(expr) == 0:
+        return _extract_constant_impl(expr)
+    return None
+
+
 def _extract_constant_impl(expr: Expression) -> float:
     """Recursive constant term extraction."""
     from optyx.core.vectors import (
@@ -747,7 +759,11 @@ def _extract_constant_impl(expr: Expression) -> float:
                 return float(expr.left.value) * _extract_constant_impl(expr.right)
             if isinstance(expr.right, Constant):
                 return _extract_constant_impl(expr.left) * float(expr.right.value)
-            return 0.0
+            # neither factor is a literal, as in (2 + 3) * (x + 1): the value at the
+            # zero point is the product of the factors' values there
+            return _extract_constant_impl(expr.left) * _extract_constant_impl(
+                expr.right
+            )
 
         if expr.op == "/":
             if isinstance(expr.right, Constant):
@@ -1019,8 +1035,24 @@ def _extract_all_coefficients_impl(
                     expr.left, var_index, result, multiplier * float(expr.right.value)
                 )
                 return
-            # Both sides non-constant - no linear contribution
-            return
+            # A constant-valued factor that is not a literal, as in (2 + 3) * x
+            factor = _constant_factor(expr.left)
+            if factor is not None:
+                _extract_all_coefficients_impl(
+                    expr.right, var_index, result, multiplier * factor
+                )
+                return
+            factor = _constant_factor(expr.right)
+            if factor is not None:
+                _extract_all_coefficients_impl(
+                    expr.left, var_index, result, multiplier * factor
+                )
+                return
+            raise NonLinearError(
+                expression=repr(expr)[:100],
+                context="batch coefficient extraction",
+                suggestion="A product is linear only if one factor is constant.",
+            )
 
         if expr.op == "/":
             # Division by constant
